@@ -11,24 +11,37 @@ void *ares_llist_node_claim(ares_llist_node_t *n) { g_unlinked_at = ++g_order; r
 ares_bool_t ares_htable_asvp_remove(ares_htable_asvp_t *h, ares_socket_t key) { __CPROVER_assert(key == 7, "C10: the table entry of this descriptor is removed"); g_removed_at = ++g_order; return ARES_TRUE; }
 void ares_buf_destroy(ares_buf_t *b) { g_bufs_destroyed++; }
 void ares_tvnow(ares_timeval_t *now) { now->sec = 1; now->usec = 0; }
-void *ares_llist_first_val(ares_llist_t *l) { return g_nq ? &q_tok[g_nq - 1] : NULL; }
+/* the connection's query list: <= 2 nodes with liveness; a node dies when its query is detached (requeued elsewhere, completed or cancelled) */
+static _Bool n_live[2]; static char qn_tok[2]; static int g_cancelled;
+static size_t live_cnt(void) { return (size_t)n_live[0] + (size_t)n_live[1]; }
+void *ares_llist_first_val(ares_llist_t *l) { return n_live[0] ? &q_tok[0] : (n_live[1] ? &q_tok[1] : NULL); }
+ares_llist_node_t *ares_llist_node_first(ares_llist_t *l) { return n_live[0] ? (ares_llist_node_t *)&qn_tok[0] : (n_live[1] ? (ares_llist_node_t *)&qn_tok[1] : NULL); }
+ares_llist_node_t *ares_llist_node_next(ares_llist_node_t *n) { size_t i = (size_t)((char *)n - qn_tok); __CPROVER_assert(i < 2 && n_live[i], "C01: a query-list node is not used after its query was detached or released"); return (i == 0 && n_live[1]) ? (ares_llist_node_t *)&qn_tok[1] : NULL; }
+void *ares_llist_node_val(ares_llist_node_t *n) { size_t i = (size_t)((char *)n - qn_tok); __CPROVER_assert(i < 2 && n_live[i], "C01: a query-list node is not used after its query was detached or released"); return &q_tok[i]; }
 ares_status_t ares_requeue_query(ares_query_t *query, const ares_timeval_t *now, ares_status_t status, ares_bool_t inc, const ares_dns_record_t *dnsrec, ares_array_t **requeue)
-{ __CPROVER_assert(g_closed_at == 0 && g_freed_at == 0, "C01/C10: queries are moved away while the connection object is still alive"); __CPROVER_assert(requeue == NULL && dnsrec == NULL, "direct requeue"); g_requeues++; g_rq_status = status; g_rq_inc = inc; g_nq--; return ARES_SUCCESS; }
-void ares_llist_destroy(ares_llist_t *l) { __CPROVER_assert(g_nq == 0, "C10: the query list is destroyed only when empty"); g_list_destroyed++; }
+{
+  __CPROVER_assert(g_closed_at == 0 && g_freed_at == 0, "C01/C10: queries are moved away while the connection object is still alive"); __CPROVER_assert(requeue == NULL && dnsrec == NULL, "direct requeue");
+  size_t i = (size_t)((char *)query - q_tok); __CPROVER_assert(i < 2 && n_live[i], "C01: only a query that is still on the connection is requeued (never a released one)");
+  g_requeues++; g_rq_status = status; g_rq_inc = inc; n_live[i] = 0;      /* ares_query_remove_from_conn() */
+  /* out of tries: the query completes; its callback may cancel the channel, which completes and releases the OTHER queries of this connection too */
+  if (nondet_bool()) for (size_t j = 0; j < 2; j++) if (j != i && n_live[j]) { n_live[j] = 0; g_cancelled++; }
+  return ARES_SUCCESS;
+}
+void ares_llist_destroy(ares_llist_t *l) { __CPROVER_assert(live_cnt() == 0, "C10: the query list is destroyed only when empty"); g_list_destroyed++; }
 void ares_conn_sock_state_cb_update(ares_conn_t *conn, ares_conn_state_flags_t flags) { __CPROVER_assert(g_closed_at == 0, "C10: no notification about a closed socket"); g_announce_at = ++g_order; g_announced = flags; }
 void ares_socket_close(ares_channel_t *channel, ares_socket_t s) { __CPROVER_assert(s == 7, "C10: the connection's descriptor is the one closed"); g_closes++; g_closed_at = ++g_order; }
 void ares_free(void *p) { if (p == (void *)g_conn) { g_freed_at = ++g_order; } free(p); }
 void h_close_connection(void)
 {
   static ares_channel_t ch; static ares_server_t srv; ares_conn_t *c = malloc(sizeof(*c)); __CPROVER_assume(c != NULL); memset(c, 0, sizeof(*c)); g_conn = c;
-  c->server = &srv; srv.channel = &ch; c->fd = 7; c->flags = (ares_conn_flags_t)nondet_uint(); srv.tcp_conn = nondet_bool() ? c : NULL; g_nq = nondet_size() % 3; size_t nq0 = g_nq;
+  c->server = &srv; srv.channel = &ch; c->fd = 7; c->flags = (ares_conn_flags_t)nondet_uint(); srv.tcp_conn = nondet_bool() ? c : NULL; g_nq = nondet_size() % 3; size_t nq0 = g_nq; n_live[0] = nq0 >= 1; n_live[1] = nq0 >= 2; g_cancelled = 0;
   ares_status_t st = (ares_status_t)(nondet_uint() % 26); _Bool tcp = (c->flags & ARES_CONN_FLAG_TCP) != 0;
   g_order = g_unlinked_at = g_removed_at = g_announce_at = g_closed_at = g_freed_at = g_requeues = g_closes = g_bufs_destroyed = g_list_destroyed = 0;
   ares_close_connection(c, st);
   __CPROVER_assert(g_closes == 1, "C10: the socket is closed exactly once");
   __CPROVER_assert(g_unlinked_at > 0 && g_removed_at > 0 && g_removed_at < g_closed_at, "C10: the connection leaves the server list and the descriptor table before its socket is closed");
   __CPROVER_assert(g_announce_at > 0 && g_announce_at < g_closed_at && g_announced == ARES_CONN_STATE_NONE, "C10: the application is told to stop watching BEFORE the descriptor is closed");
-  __CPROVER_assert((size_t)g_requeues == nq0 && (nq0 == 0 || (g_rq_status == st && g_rq_inc == ARES_TRUE)), "C01/C06: every query on the connection is requeued exactly once (consuming a try, with the failure status)");
+  __CPROVER_assert((size_t)(g_requeues + g_cancelled) == nq0 && live_cnt() == 0 && (g_requeues == 0 || (g_rq_status == st && g_rq_inc == ARES_TRUE)), "C01/C06: every query on the connection is dealt with exactly once: requeued (consuming a try, with the failure status) or cancelled by a sibling's callback");
   __CPROVER_assert(g_freed_at == g_order && g_closed_at == g_order - 1, "C10: nothing touches the socket or the connection after close / release");
   __CPROVER_assert(g_bufs_destroyed == 2 && g_list_destroyed == 1, "C10: both buffers and the query list are released");
   if (tcp) __CPROVER_assert(srv.tcp_conn == NULL, "C10: the server forgets its TCP connection");
